@@ -1,0 +1,16 @@
+//go:build !verif
+
+package grpctunnel
+
+// Verification hooks (see verif_on.go). Without the "verif" build tag these are
+// empty and are inlined away.
+
+func verifYield(string, int64) {}
+
+func verifEvent(string, int64, int64, int64) {}
+
+func verifChanID(*tunnelChannel) int64 { return 0 }
+
+func verifServerStart(*tunnelServer) {}
+
+func verifServerEnd(*tunnelServer) {}
